@@ -5,7 +5,7 @@
    mutations; and at quiescence: ledger, cluster objects, and the effective schedule
    (which entries found their operation still running — this pins the number of gates). *)
 From Coq Require Import List String Bool Arith ZArith.
-From Helm Require Import Common.Assoc Engine.Types Engine.Eff Engine.Ops Engine.OpsFix Engine.Cluster Engine.Seq Engine.Conc.
+From Helm Require Import Common.Assoc Engine.Types Engine.Eff Engine.Ops Engine.OpsFix Engine.Cluster Engine.Seq Engine.Conc Engine.ConcStart.
 From Helm Require Import Run.RunEng.
 Import ListNotations.
 
@@ -44,9 +44,12 @@ Definition start_state (c : ccase) : cstate kstate :=
   let w := world_after (cc_pre c) in
   mkC (w_led w) (mkK (w_objs w) (fault_of (cc_conc c)) None false) [].
 
+(* the harness launches the operations in index order, each up to its first gate, before the
+   schedule starts ([ConcStart.run_started]; an operation without any gate — install --dry-run —
+   has returned by then) *)
 Definition model_run (c : ccase) :=
-  run_gated kstate (kube_handle rn ns) dead_resp outcome
-            (map (op_prog_fx rn ns) (ops_of (cc_conc c))) (cc_sched c) (start_state c).
+  run_started kstate (kube_handle rn ns) dead_resp outcome
+              (map (op_prog_fx rn ns) (ops_of (cc_conc c))) (cc_sched c) (start_state c).
 
 (* Known imprecision of the shared model, outside C09's domain (history pruning): a final
    SUpdate that finds its record pruned away is classified "other" by Ops.upgrade where Helm
@@ -74,8 +77,8 @@ Definition conc_ok (c : ccase) : bool :=
   let ops := ops_of (cc_conc c) in
   let '(ts, s) := model_run c in
   ops_agree (existsb prunes ops) 0 s (outcomes _ ts) (c_obs (cc_conc c))
-  && nats_eqb (effective_gates kstate (kube_handle rn ns) dead_resp outcome (cc_sched c)
-                 (map (op_prog_fx rn ns) ops) (start_state c))
+  && nats_eqb (effective_started kstate (kube_handle rn ns) dead_resp outcome
+                 (map (op_prog_fx rn ns) ops) (cc_sched c) (start_state c))
               (cc_eff c).
 
 Definition case_ok (c : ccase) : bool := RunEng.case_ok (cc_pre c) && conc_ok c.
